@@ -429,7 +429,7 @@ func WithLogger(logger log.Logger) Option {
 //   - An error if the provided HELO string is empty.
 func WithHELO(helo string) Option {
 	return func(c *Client) error {
-		if helo == "" {
+		if helo == "" || strings.ContainsAny(helo, " \t\r\n") {
 			return ErrInvalidHELO
 		}
 		c.helo = helo
